@@ -112,6 +112,15 @@ def DispFits {J σ : Type} (T : Tables) (L : Lib J) (d : Disp σ J) : Prop :=
     | .secop cls => cls ∈ T.errorClasses
     | _ => True
 
+/-- all that "the reply belongs to the request" needs of a dispatcher (`DispFits` without well-formedness): a positive reply
+carries the reply action of the request and its specifier, a raised SECoP error a class name of errors.py -/
+def DispAnswers {J σ : Type} (T : Tables) (d : Disp σ J) : Prop :=
+  ∀ st t,
+    match (d st t).1.res with
+    | .ok r => FitsOk T ⟨t.action, t.spec.getD []⟩ r.action (r.spec.getD [])
+    | .secop cls => cls ∈ T.errorClasses
+    | _ => True
+
 /-- action and specifier of the triple contain no newline -/
 def NoEolTriple {J : Type} (m : Triple J) : Prop := EOL ∉ m.action ∧ EOL ∉ m.spec.getD []
 
